@@ -412,9 +412,9 @@ impl BuiltInFunction {
 
                 if let Some((result, _)) = result {
                     Ok((
-                        Some(Primitive::Optional(Some(Box::new(Primitive::Int(
+                        Some(Primitive::Int(
                             result.try_into().with_context(|| format!("vector index of element `{result}` could not fit in an int (i32)"))?,
-                        ))))),
+                        )),
                         None,
                     ))
                 } else {
@@ -499,9 +499,9 @@ impl BuiltInFunction {
 
                 if let Some(start) = s.find(o) {
                     Ok((
-                        Some(Primitive::Optional(Some(Box::new(Primitive::Int(
+                        Some(Primitive::Int(
                             start.try_into().with_context(|| format!("index of found string pattern `{start}` could not fit in an int (i32)"))?,
-                        ))))),
+                        )),
                         None,
                     ))
                 } else {
@@ -625,7 +625,7 @@ impl BuiltInFunction {
 
                 if let Ok(num) = parsed {
                     Ok((
-                        Some(Primitive::Optional(Some(Box::new(Primitive::Int(num))))),
+                        Some(Primitive::Int(num)),
                         None,
                     ))
                 } else {
@@ -646,7 +646,7 @@ impl BuiltInFunction {
 
                 if let Ok(num) = parsed {
                     Ok((
-                        Some(Primitive::Optional(Some(Box::new(Primitive::BigInt(num))))),
+                        Some(Primitive::BigInt(num)),
                         None,
                     ))
                 } else {
@@ -684,7 +684,7 @@ impl BuiltInFunction {
 
                 if let Ok(num) = i32::from_str_radix(s, radix) {
                     Ok((
-                        Some(Primitive::Optional(Some(Box::new(Primitive::Int(num))))),
+                        Some(Primitive::Int(num)),
                         None,
                     ))
                 } else {
@@ -722,7 +722,7 @@ impl BuiltInFunction {
 
                 if let Ok(num) = i128::from_str_radix(s, radix) {
                     Ok((
-                        Some(Primitive::Optional(Some(Box::new(Primitive::BigInt(num))))),
+                        Some(Primitive::BigInt(num)),
                         None,
                     ))
                 } else {
@@ -736,7 +736,7 @@ impl BuiltInFunction {
 
                 if let Ok(b) = s.parse::<bool>() {
                     Ok((
-                        Some(Primitive::Optional(Some(Box::new(Primitive::Bool(b))))),
+                        Some(Primitive::Bool(b)),
                         None,
                     ))
                 } else {
@@ -750,7 +750,7 @@ impl BuiltInFunction {
 
                 if let Ok(num) = s.parse::<f64>() {
                     Ok((
-                        Some(Primitive::Optional(Some(Box::new(Primitive::Float(num))))),
+                        Some(Primitive::Float(num)),
                         None,
                     ))
                 } else {
@@ -770,7 +770,7 @@ impl BuiltInFunction {
 
                 if let Ok(num) = u8::from_str_radix(s, radix) {
                     Ok((
-                        Some(Primitive::Optional(Some(Box::new(Primitive::Byte(num))))),
+                        Some(Primitive::Byte(num)),
                         None,
                     ))
                 } else {
@@ -1093,7 +1093,7 @@ impl BuiltInFunction {
 
                 let maybe_existing_value = map.insert(key.clone(), value.clone())?;
                 Ok((
-                    Some(Primitive::Optional(maybe_existing_value.map(Box::new))),
+                    Some(maybe_existing_value.unwrap_or(Primitive::Optional(None))),
                     None,
                 ))
             }
@@ -1133,7 +1133,7 @@ impl BuiltInFunction {
                 };
 
                 Ok((
-                    Some(Primitive::Optional(map.remove(key.clone())?.map(Box::new))),
+                    Some(map.remove(key.clone())?.unwrap_or(Primitive::Optional(None))),
                     None,
                 ))
             }
